@@ -12,11 +12,22 @@ Streams:
               programs that the evaluator model covers also go through progs.run_stream (Go = model = spec)
   http        a wire-format request with ≥ 5 headers and ≥ 5 query parameters through the real ZnHttpHandler.ServeHTTP
   exprinput   exec.ExecExpressionInputText on Go maps with ≥ 4 entries
+  rep:handler every branch of the real handlers (harness op `hrep`): ZnHttpHandler request bodies (JSON object / non-object /
+              malformed / form / text / empty / unreadable / nil), every kind of result sendHTTPResponse writes (text, number,
+              dictionary and list → JSON, HTTP响应 object with status / headers / content, error → 500, 空, other objects), the
+              playground handler (result text, VarInput dictionaries, refusals); beside "one outcome" the ORDER is prescribed:
+              JSON documents in document order, dictionaries in insertion order, values of one response header in insertion order
+  ext:*       (props/extdata.py) external data that repeats names — JSON objects with a key two or three times at any depth
+              (解析JSON in programs, the application/json request body, the library called directly), header lines / query
+              parameters repeated or differing in letter case or spelling, form bodies — observed by 显示, 所有索引, 所有值, 遍历,
+              #key, copies, 写入/移除 afterwards, 生成JSON / the JSON response: N repetitions give ONE outcome and it is the
+              outcome the spec semantics gives the same observations on a literal of the documented value
 """
 import json, os, re
 import framework as fw
 from zngen import *
 from props import progs
+from props import extdata
 
 RULE = ("every program is executed N=50 (quick) / 1000 (thorough) times inside one harness process and all N canonical outcomes "
         "(value, displayed lines, error class/code/line, plus the full error text) must coincide; generated programs pass through every "
@@ -28,7 +39,11 @@ RULE = ("every program is executed N=50 (quick) / 1000 (thorough) times inside o
         "(once, twice = clash), of custom modules with 4–8 exports, of two modules sharing ≥ 2 names, selective imports; "
         "解析JSON of objects with 4–8 keys then 所有索引 (owned by C19); HTTP requests with 5–9 headers and 5–8 query parameters "
         "(request dictionaries displayed, response object with header names differing only in case); "
-        "ExecExpressionInputText with 4–6 expressions of which 0–3 fail. Non-trivial = the program reaches at least one site "
+        "ExecExpressionInputText with 4–6 expressions of which 0–3 fail; external data repeating names (JSON objects with a key "
+        "two or three times among ≥ 2 distinct keys, first/middle/last, at any depth, below shadowed values, \\u-spelt; through "
+        "解析JSON, the application/json body and the library directly; header lines and query parameters repeated, in other letter "
+        "cases, percent-encoded; form bodies): one outcome over N repetitions AND equal to the spec semantics' outcome of the same "
+        "observations on a literal of the documented value (first place / last value; names ascending, first value). Non-trivial = the program reaches at least one site "
         "with ≥ 3 map entries. Modelled programs additionally: Go run = Lean model run = Lean spec run.")
 ASSUMPTIONS = [
     "Go map iteration is modelled as an arbitrary permutation of the entries (the runtime in fact picks a random start bucket/offset); "
@@ -504,6 +519,211 @@ def par_go(ctx, lines, timeout_ms=120000, ways=8):
     return [a for part in parts for a in part]
 
 
+# ---- the real handlers of pkg/server, every branch (harness op `hrep`: the same request N times through one handler) ----
+# A case: (kind, step, oracle) — oracle(status, headers, body bytes, trace) → None | what is wrong. Beside "one outcome in N
+# repetitions" the order oracles say WHICH order: the members of a JSON document in document order, the keys of a dictionary
+# in insertion order, the values given to one response header in insertion order.
+
+def _json_pairs(text):
+    return json.loads(text, object_pairs_hook=lambda ps: ('obj', [(k, v) for k, v in ps]))
+
+
+def _rand_json_obj(rng, depth=0):
+    nk = rng.randint(4, 8)
+    keys = rng.sample(['a', 'b', 'c', 'd', 'e', 'f', 'g', 'h', 'zz', 'k1', 'k2', '名', '10', '9', 'A', 'B'], nk)
+    parts = []
+    for k in keys:
+        r = rng.random()
+        if depth < 2 and r < 0.3:
+            v = _rand_json_obj(rng, depth + 1)
+        elif r < 0.45:
+            v = '[%s]' % ','.join((_rand_json_obj(rng, depth + 1) if depth < 2 and rng.random() < 0.3 else rng.choice(['1', '"x"']))
+                                  for _ in range(rng.randint(0, 3)))
+        else:
+            v = rng.choice(['1', '2.5', '"x"', 'true', 'null', '"文"', '-3'])
+        parts.append('%s:%s' % (json.dumps(k, ensure_ascii=False), v))
+    return '{' + ','.join(parts) + '}'
+
+
+def _zn_dict(rng, depth=0):
+    """a dictionary literal and the JSON-pairs value it denotes"""
+    nk = rng.randint(4, 8)
+    keys = rng.sample(['a', 'b', 'c', 'd', 'e', 'f', 'g', 'h', 'zz', 'k1', 'k2', '名', 'A', 'B'], nk)
+    items, pairs = [], []
+    for k in keys:
+        r = rng.random()
+        if depth < 2 and r < 0.3:
+            lit, val = _zn_dict(rng, depth + 1)
+        elif r < 0.45:
+            lit, val = '【1，“x”】', [1, 'x']
+        else:
+            lit, val = rng.choice([('1', 1), ('2.5', 2.5), ('“x”', 'x'), ('真', True), ('空', None), ('“文”', '文')])
+        items.append('“%s” = %s' % (k, lit))
+        pairs.append((k, val))
+    return '【' + '，'.join(items) + '】', ('obj', pairs)
+
+
+def _expect_json(want):
+    def oracle(status, hdrs, body, trace):
+        if status != 200:
+            return 'status %d, expected 200' % status
+        try:
+            got = _json_pairs(body.decode('utf-8'))
+        except ValueError:
+            return 'the body is not JSON'
+        if got != want:
+            return 'JSON members are not in the order (or not the values) of the source: expected %s' % json.dumps(want, ensure_ascii=False)[:300]
+    return oracle
+
+
+def _expect_status(code, body=None, ctype=None):
+    def oracle(status, hdrs, b, trace):
+        if status != code:
+            return 'status %d, expected %d' % (status, code)
+        if body is not None and b.decode('utf-8', 'replace') != body:
+            return 'body %r, expected %r' % (b.decode('utf-8', 'replace')[:80], body)
+        if ctype is not None and not (hdrs.get('Content-Type') or [''])[0].startswith(ctype):
+            return 'content type %r, expected %s' % (hdrs.get('Content-Type'), ctype)
+    return oracle
+
+
+def _expect_trace(lines):
+    want = ','.join(hx(l) for l in lines)
+
+    def oracle(status, hdrs, b, trace):
+        if trace != want:
+            return 'displayed lines are not in the order of the source: expected %s' % lines
+    return oracle
+
+
+def handler_cases(rng, scale):
+    from props import srvgen as sg
+    cases = []
+    IN = '输入当前请求\n'
+    J = [('Content-Type', 'application/json')]
+    web = lambda name, entry, oracle, **kw: cases.append((name, sg.http_step(entry, **kw), oracle))
+    # -- buildIncomingRequestBody: JSON object (document order), JSON non-object, malformed, other content types, empty, unreadable, nil
+    for _ in range(4 * scale):
+        doc = _rand_json_obj(rng)
+        tree = _json_pairs(doc)
+        keys = [k for k, _ in tree[1]]
+        web('body-json-keys', IN + '输出当前请求之内容之所有索引\n', _expect_json(keys), method='POST', target='/a?x=1', headers=J, body=doc)
+        web('body-json-echo', IN + '输出当前请求之内容\n', _expect_json(tree), method='POST', target='/a', headers=J, body=doc)
+        web('body-json-iterate', IN + '以键、值遍历当前请求之内容：\n    （显示：键）\n输出“完”\n', _expect_trace(keys), method='PUT', target='/a', headers=J, body=doc)
+    for doc in ('[3,1,2]', '"文"', '12.5', 'null', 'true', '{"a":', '', '{"a":1} x', '{"a":1,"a":2,"b":3,"a":4}'):
+        web('body-json-other', IN + '输出当前请求之内容\n', None, method='POST', target='/a', headers=J, body=doc)
+    for ct, body in (('application/json; charset=utf-8', '{"b":1,"a":2}'), ('application/x-www-form-urlencoded', 'b=1&a=2&c=%E5%90%8D'),
+                     ('text/plain', '文本 体'), ('multipart/form-data; boundary=x', '--x\r\nContent-Disposition: form-data; name="a"\r\n\r\n1\r\n--x--\r\n')):
+        web('body-text', IN + '输出当前请求之内容\n', _expect_status(200, body, 'text/plain'), method='POST', target='/a', headers=[('Content-Type', ct)], body=body)
+    web('body-empty', IN + '输出【当前请求之内容，当前请求之方法】\n', _expect_json(['', 'GET']), method='GET', target='/a')
+    web('body-unreadable', IN + '输出当前请求之内容\n', _expect_status(500), method='POST', target='/a', headers=J, body='{"a":1}', kind='httpT')
+    web('body-nil', IN + '输出当前请求之内容\n', _expect_status(200, ''), method='POST', target='/a', headers=J, body='{"a":1}', kind='httpN')
+    web('request-object', IN + '（显示：当前请求之URL、当前请求之路径、当前请求之方法）\n输出当前请求之查询参数\n', _expect_json(('obj', [('a', '2'), ('k', '名'), ('z', '1')])),
+        method='DELETE', target='/路/b?z=1&k=%E5%90%8D&a=2&k=3')
+    # -- sendHTTPResponse: text, number, dictionary / list → JSON (insertion order), HTTP响应 object, error → 500, 空, others
+    web('resp-text', IN + '输出“文 本”\n', _expect_status(200, '文 本', 'text/plain'))
+    web('resp-number', IN + '输出 3.5\n', _expect_status(200, '3.5', 'text/plain'))
+    web('resp-number', IN + '输出 1 / 3\n', _expect_status(200, '0.3333333333333333'))
+    web('resp-number', IN + '输出 10\n', _expect_status(200, '10'))
+    for _ in range(5 * scale):
+        lit, tree = _zn_dict(rng)
+        web('resp-dict', IN + '输出%s\n' % lit, _expect_json(tree))
+        web('resp-dict-grown', IN + '令典设为%s\n典#“新” = 1\n典#“%s” = 0\n输出典\n' % (lit, tree[1][1][0]),
+            _expect_json(('obj', [(k, 0 if k == tree[1][1][0] else v) for k, v in tree[1]] + [('新', 1)])))
+        web('resp-list-of-dicts', IN + '输出【%s，1，%s】\n' % (lit, lit), _expect_json([tree, 1, tree]))
+        web('resp-object-dict-content', '导入《@验证HTTP》\n' + IN + '输出（新建HTTP响应：201、%s）\n' % lit,
+            lambda st, h, b, t, tree=tree: (_expect_status(201, None, 'application/json')(st, h, b, t) or _expect_json(tree)(200, h, b, t)))
+        web('resp-object-content-replaced', '导入《@验证HTTP》\n' + IN + '令答设为（新建HTTP响应：202、“好”）\n答之内容 = %s\n输出答\n' % lit,
+            lambda st, h, b, t, tree=tree: (_expect_status(202)(st, h, b, t) or _expect_json(tree)(200, h, b, t)))
+    web('resp-dict-unjsonable', IN + '如何f？\n    输出 1\n输出【b = f，a = 1】\n', None)
+    # a number JSON cannot write (the literal 1*10^999 is +Inf): the two refusals of ElementToJSONString inside sendHTTPResponse
+    web('resp-dict-unjsonable', IN + '输出【b = 1，a = 1*10^999】\n', _expect_status(500))
+    web('resp-dict-unjsonable', IN + '输出【1，1*10^999】\n', _expect_status(500))
+    web('resp-dict-unjsonable', '导入《@验证HTTP》\n' + IN + '令答设为（新建HTTP响应：202、“好”）\n答之内容 = 【a = 1*10^999】\n输出答\n', _expect_status(500))
+    web('resp-dict-unjsonable', '导入《@验证HTTP》\n' + IN + '输出（新建HTTP响应：202、【a = 1*10^999】）\n', _expect_status(500))
+    web('resp-number', IN + '输出 1*10^999\n', _expect_status(200, '+Inf'))
+    names = ['X-A', 'x-a', 'X-a', 'x-A', 'K', 'Set-Cookie', 'set-cookie', 'Content-Type']
+    for _ in range(3 * scale):
+        hs = rng.sample(names, rng.randint(5, 8))
+        lit = '【' + '，'.join('“%s” = “v%d”' % (h, i) for i, h in enumerate(hs)) + '】'
+
+        def hdr_oracle(st, h, b, t, hs=hs):
+            if st != 404:
+                return 'status %d, expected 404' % st
+            want = {}
+            for i, n in enumerate(hs):
+                want.setdefault('-'.join(w.capitalize() for w in n.split('-')), []).append('v%d' % i)
+            if h != want:
+                return 'response header values are not in insertion order: expected %s' % want
+        web('resp-object-headers', '导入《@验证HTTP》\n' + IN + '输出（新建HTTP响应：404、“无”、%s）\n' % lit, hdr_oracle)
+    if os.environ.get('VERIF_C11_HANDLER_PANICS', '0') == '1':
+        # a response object whose 状态码 is no number / whose 头部 is no dictionary: sendHTTPResponse panics on a type assertion (a C10
+        # matter, DESIGN §12.9) — generated only on request
+        web('resp-object-status-not-number', '导入《@验证HTTP》\n' + IN + '令答设为（新建HTTP响应：200、“好”）\n答之状态码 = “二百”\n输出答\n', _expect_status(500))
+        web('resp-object-headers-not-dict', '导入《@验证HTTP》\n' + IN + '令答设为（新建HTTP响应：200、“好”）\n答之头部 = 5\n输出答\n', _expect_status(500))
+    web('resp-error', IN + '输出 1 / 0\n', _expect_status(500, None, 'text/plain'))
+    web('resp-error', '令令令\n', _expect_status(500))
+    web('resp-error', IN + '如何坏？\n    抛出异常：“坏”！\n（坏）\n', _expect_status(500))
+    web('resp-error', '输入当前请求、乙\n输出 1\n', _expect_status(500))
+    web('resp-null', IN + '输出 空\n', _expect_status(200, '空'))
+    web('resp-null', IN + '令甲设为1\n', _expect_status(200))
+    web('resp-bool', IN + '输出 真\n', _expect_status(200, '真'))
+    web('resp-other-object', IN + '定义狗：\n    其名设为“旺”\n输出（新建狗）\n', _expect_status(200, ''))
+    web('resp-function', IN + '如何f？\n    输出 1\n输出 f\n', _expect_status(200))
+    web('resp-request-object', IN + '输出当前请求\n', _expect_status(200, ''))
+    # -- the playground handler: result text of dictionaries (insertion order), VarInput dictionaries, refusals
+    pg = lambda name, oracle, **kw: cases.append((name, sg.pg_step(**kw), oracle))
+    for _ in range(3 * scale):
+        lit, tree = _zn_dict(rng)
+        keys = [k for k, _ in tree[1]]
+        pg('pg-dict-keys', _expect_status(200, '[' + '，'.join(keys) + ']'), source='输出%s之所有索引\n' % lit)
+        pg('pg-varinput-dict-keys', _expect_status(200, '[' + '，'.join(keys) + ']'), source='输入典\n输出典之所有索引\n', varinput='典 = %s' % lit)
+        pg('pg-json', lambda st, h, b, t, tree=tree: _expect_json(tree)(st, h, b, t), source='导入《@JSON》\n输出（生成JSON：%s）\n' % lit)
+        pg('pg-dict-shown', None, source='（显示：%s）\n输出%s\n' % (lit, lit))
+    many = '\n'.join('%s = %d' % (n, i) for i, n in enumerate(['丁', '甲', '丙', '乙', '戊', '己']))
+    pg('pg-varinput-many', _expect_status(200, '[0，1，2，3，4，5]'), source='输入丁、甲、丙、乙、戊、己\n输出【丁，甲，丙，乙，戊，己】\n', varinput=many)
+    pg('pg-varinput-many-missing', _expect_status(500), source='输入丁、甲、庚、辛\n输出 1\n', varinput=many)
+    pg('pg-varinput-two-errors', _expect_status(500), source='输出 1\n', varinput='甲 = 子\n乙 = 丑\n丙 = 寅\n丁 = 卯')
+    pg('pg-refused', _expect_status(500), raw=b'{')
+    pg('pg-refused', _expect_status(500), raw=b'[1,2]')
+    pg('pg-refused', _expect_status(500), raw='{"SourceCode":"输出 1"}'.encode(), truncated=True)
+    pg('pg-error', _expect_status(500), source='输出 1 / 0\n')
+    pg('pg-error', _expect_status(500), source='令令令\n')
+    pg('pg-null', _expect_status(200, ''), source='令甲设为1\n')
+    pg('pg-text', _expect_status(200, '文'), source='输出“文”\n')
+    return cases
+
+
+def handler_stream(ctx, N, scale):
+    from props import srvgen as sg
+    cases = handler_cases(ctx.rng, scale)
+    lines = ['hrep %d %s' % (N, st) for _, st, _ in cases]
+    ans = par_go(ctx, lines)
+    if ans and all(a == 'bad-op' for a in ans):
+        ctx.count('handlers:unavailable', len(ans))
+        return
+    for (kind, st, oracle), line, a in zip(cases, lines, ans):
+        ok = judge_rep(ctx, 'rep:handler:' + kind, line, a)
+        ctx.nontriv(line)
+        ctx.count('rep:handler:' + kind)
+        if not ok:
+            continue
+        p = sg.parse_resp(a[len('rep 1 '):])
+        if p is None:
+            if os.environ.get('VERIF_C11_HANDLER_PANICS', '0') == '1' or not a.startswith('rep 1 panic'):
+                ctx.violation('rep:handler:' + kind + ':no-response', line, a[:300], 'an HTTP response')
+            continue
+        ctx.count('rep:handler:status:%d' % p[0])
+        if oracle is not None:
+            ctx.evaluations += 1
+            bad = oracle(*p)
+            if bad:
+                ctx.violation('rep:handler:' + kind + ':order', line, sg.show(a[len('rep 1 '):]) + ' ' + json.dumps({k: v for k, v in p[1].items() if k != 'Content-Type'}, ensure_ascii=False)[:200] + ' | ' + p[3][:120], bad)
+    ctx.streams.append({'stream': 'rep:handler', 'cases': len(lines), 'repetitions': N,
+                        'kinds': sorted(set(k for k, _, _ in cases))})
+    ctx.sample({'stream': 'rep:handler', 'kind': cases[1][0], 'answer': sg.show(ans[1][len('rep 1 '):])})
+
+
 # ---- judging a repetition answer ----------------------------------------------------------------------------------
 
 def judge_rep(ctx, stream, case, ans, known_pred=None):
@@ -637,6 +857,9 @@ def run(ctx):
     ctx.streams.append({'stream': 'rep:json', 'cases': len(jc), 'repetitions': N,
                         'owner': 'C19' + (' (site still a map range: nondeterminism listed as known finding)' if known_json else '')})
 
+    # ---- values built from external data that REPEATS names: one outcome AND the documented order ---------------
+    extdata.run(ctx, N, scale, par_go)
+
     # ---- HTTP handler ---------------------------------------------------------------------------------------
     hc = http_cases(rng, 15 * scale, N)
     ans = par_go(ctx, [c for _, c in hc])
@@ -652,6 +875,9 @@ def run(ctx):
         ctx.sample({'stream': 'rep:http', 'case': hc[0][1][:200], 'answer': ans[0][:400]})
     ctx.streams.append({'stream': 'rep:http', 'cases': len(hc), 'repetitions': N})
 
+    if os.environ.get('VERIF_C11_HANDLERS', '1') != '0':
+        handler_stream(ctx, N, scale)
+
     ec = exprinput_cases(rng, 20 * scale, N)
     ans = par_go(ctx, [c for _, c in ec])
     for (kind, line), a in zip(ec, ans):
@@ -664,7 +890,7 @@ def run(ctx):
 def replay(ctx, data):
     case = data['case']
     f = case.split(' ')
-    if f[0] in ('repeat', 'repeatfiles', 'httpreq', 'exprinput'):
+    if f[0] in ('repeat', 'repeatfiles', 'httpreq', 'exprinput', 'hrep'):
         # re-run with at least 1000 repetitions
         f[1] = str(max(1000, int(f[1])))
         a = ctx.run_go([' '.join(f)], timeout_ms=120000)[0]
@@ -676,7 +902,7 @@ def replay(ctx, data):
                     print('error text:', bytes.fromhex(h).decode('utf-8', 'replace'))
                 except ValueError:
                     pass
-        print('spec : rep 1 <one outcome>')
+        print('spec :', str(data.get('spec'))[:3000] if str(data.get('stream', '')).startswith('ext:') else 'rep 1 <one outcome>')
         if f[0] == 'repeat':
             progs.replay(ctx, {'case': ('run ' + ' '.join(f[2:])).strip()})
     else:
